@@ -88,7 +88,11 @@ def check_case(res, spec, limit, method, exprs, label):
             b = np.concatenate([np.zeros(M.shape[0]), [float(M.shape[1])]])
             z, _ = scipy.optimize.nnls(A, b)
             kept = [v for i, v in enumerate(x) if i not in exp_excl]
-            if len(kept) == M.shape[1]:
+            sv = np.linalg.svd(A, compute_uv=False)
+            determined = A.shape[0] >= A.shape[1] and sv[-1] > 1e-6 * sv[0]
+            if not determined:
+                res.count("restricted system does not determine the tensions uniquely (value comparison skipped)")
+            if len(kept) == M.shape[1] and determined:
                 tol = 1e-6 if method != "lsq" else 5e-3
                 if np.max(np.abs(np.array(kept) - z[:-1])) > tol * (1 + np.max(np.abs(z))):
                     bad.append(f"kept positions differ from the restricted-system solution by {np.max(np.abs(np.array(kept) - z[:-1])):.3g}")
